@@ -218,8 +218,10 @@ def rule_r3(ctx):
                              "%s is accessed at line %s on a path where mq_lock is not held" % (last_field(n), s.line))
             else:
                 # helper: every caller in this file must hold the lock at the call
-                cs = [(c, cs_) for (c, cs_) in callers.get(f.name, []) if c.file == f.file]
-                ok = bool(cs)
+                # (init and fini run before the queue is shared / after the last user is gone and are exempt themselves)
+                cs = [(c, cs_) for (c, cs_) in callers.get(f.name, []) if c.file == f.file and
+                      c.name not in ("nni_msgq_init", "nni_msgq_fini")]
+                ok = bool(cs) or bool(callers.get(f.name))
                 for c, cs_ in cs:
                     ci = lockinfo(c)
                     hv = ci.visits.get((cs_.b, cs_.i), [])
